@@ -108,7 +108,7 @@ impl ToStr for AccountResolutionError {
                 "Failed to parse `Pubkey` from bytes"
             }
             AccountResolutionError::AccountTypeNotAccountMeta => {
-                "Attempted to deserialize an `AccountMeta` but the underlying type has PDA configs rather than a fixed address"
+                "Attempted to deserialize an `AccountMeta` but the underlying type has PDA configurations rather than a fixed address"
             }
             AccountResolutionError::SeedConfigsTooLarge => {
                 "Provided list of seed configurations too large for a validation account"
